@@ -11,6 +11,7 @@ search     : metamorphic direct oracle on the implementation: cosmetic YAML rewr
 """
 from __future__ import annotations
 
+import copy
 import glob
 import json
 import os
@@ -277,6 +278,39 @@ def run(ck):
                     break
     stats["one_object_sequences"] = shared_runs
 
+    # ---- one container object referenced twice inside a node's parameters (what a re-used YAML anchor loads to) vs equal copies
+    shared = {"kind": "model:PolynomialFittingModel:degree=2", "opts": [1, {"m": "model:PolynomialFittingModel:degree=1"}], "tag": "s"}
+    lst = ["model:PolynomialFittingModel:degree=3", 2.0]
+    for tag, mk in (("mapping", lambda a, b: {"a": a, "b": {"inner": b}, "c": 1.0}), ("list", lambda a, b: [a, b, 3.0])):
+        block = shared if tag == "mapping" else lst
+        aliased = [{"processor": "FloatValueDataSource", "parameters": {"value": 1.0}},
+                   {"processor": "FloatMultiplyOperation", "parameters": {"factor": mk(block, block)}}]
+        expanded = copy.deepcopy(aliased)
+        expanded[1]["parameters"]["factor"] = mk(copy.deepcopy(block), copy.deepcopy(block))
+        try:
+            oa, ob = G.observe(aliased, runs=1), G.observe(expanded, runs=1)
+        except G.Mismatch as ex:
+            ck.fail_input("C04:paths:disagree-on-pristine-configuration:shared-container", "identity paths of one configuration disagree: %s" % ex,
+                          {"kind": "shared", "nodes": json.loads(json.dumps(aliased)), "order": []})
+            continue
+        except Exception as ex:  # noqa
+            ck.corr_problem("shared-container configuration is rejected", repr(ex))
+            continue
+        evaluations += 6
+        d = diff_fields(oa, ob) + (["pipeline_id"] if oa["plid"] != ob["plid"] else [])
+        if d:
+            ck.fail_input("C04:rewrite:anchored-container-vs-expanded:" + ",".join(d),
+                          "a %s referenced twice inside one node's parameters (a re-used YAML anchor) and the same configuration with two equal copies "
+                          "give different identities: %s" % (tag, d), {"kind": "aliased", "container": tag, "nodes": expanded})
+    # ---- one orchestrator shared by several Pipeline objects; a traced run that fails while its trace file is opened in between
+    try:
+        d = shared_orchestrator_problem(tmp)
+        evaluations += 4
+        if d:
+            ck.fail_input("C04:history:shared-orchestrator-after-failed-trace-open:" + ",".join(d[0]), d[1], {"kind": "shared-orchestrator", "nodes": d[2]})
+    except Exception as ex:  # noqa
+        ck.corr_problem("shared-orchestrator scenario could not run", repr(ex))
+
     # ---- set-valued internals: the same configurations inspected in fresh processes under different hash seeds
     hs_cfgs = G.hashseed_configs()
     hs_out = {}
@@ -375,6 +409,61 @@ def run(ck):
     ck.log("correspondence: %d/%d model cases agree; cli %d/%d; variants %d" % (agreed, len(lits), cli_ok, len(cli_jobs), stats["variants"]))
 
 
+def shared_orchestrator_problem(tmp):
+    """job 1: configuration B traced; job 2: configuration A whose trace file cannot be opened (parent is a regular file);
+    job 3: configuration B again -- all on ONE orchestrator.  pipeline_start identities of job 3 must equal job 1's and inspect's."""
+    from semantiva.context_processors.context_types import ContextType
+    from semantiva.examples.test_utils import FloatDataType
+    from semantiva.execution.orchestrator.orchestrator import LocalSemantivaOrchestrator
+    from semantiva.inspection import build_inspection_payload
+    from semantiva.logger import Logger
+    from semantiva.pipeline import Payload, Pipeline
+    from semantiva.trace.drivers.jsonl import JsonlTraceDriver
+    cfg_a = [{"processor": "FloatMultiplyOperation", "parameters": {"factor": 1.5}},
+             {"processor": "FloatMultiplyOperation", "derive": {"parameter_sweep": {"parameters": {"factor": "2 * t"}, "variables": {"t": [1.0, 2.0, 3.0]},
+                                                                                  "collection": "FloatDataCollection"}}}]
+    cfg_b = [{"processor": "FloatAddOperation", "derive": {"parameter_sweep": {"parameters": {"addend": "s + 1"}, "variables": {"s": {"lo": 0.0, "hi": 1.0, "steps": 3}},
+                                                                             "collection": "FloatDataCollection"}}},
+             {"processor": "FloatCollectionSumOperation"}]
+    orch = LocalSemantivaOrchestrator()
+    lg = Logger(level="CRITICAL")
+    blocker = os.path.join(tmp, "not_a_directory")
+    open(blocker, "w").write("x")
+
+    def start_ids(cfg, path):
+        rec = G.Recorder()
+
+        class Tee(JsonlTraceDriver):      # a real JSONL driver (it opens its file in on_pipeline_start) that also records
+            def on_pipeline_start(self, *a, **k):
+                super().on_pipeline_start(*a, **k)
+                rec.on_pipeline_start(*a, **k)
+        p = Pipeline(copy.deepcopy(cfg), trace=Tee(path), orchestrator=orch, logger=lg)
+        try:
+            p.process(Payload(FloatDataType(2.0), ContextType({})))
+        except BaseException as ex:  # noqa
+            if isinstance(ex, KeyboardInterrupt):
+                raise
+        if not rec.starts:
+            return None
+        m = rec.starts[-1]["meta"]
+        return {"semid": m.get("semantic_id"), "cfgid": m.get("config_id"), "nodesem": sorted((m.get("node_semantic_ids") or {}).values())}
+    first = start_ids(cfg_b, os.path.join(tmp, "b1.jsonl"))
+    failed = start_ids(cfg_a, os.path.join(blocker, "a.jsonl"))
+    third = start_ids(cfg_b, os.path.join(tmp, "b3.jsonl"))
+    pay = build_inspection_payload(copy.deepcopy(cfg_b))
+    want = {"semid": pay["identity"]["semantic_id"], "cfgid": pay["identity"]["config_id"],
+            "nodesem": sorted(x["node_semantic_id"] for x in pay["pipeline_spec_canonical"]["nodes"] if x["node_semantic_id"] != "none")}
+    if first is None or third is None:
+        return None
+    third_cmp = dict(third, nodesem=[x for x in third["nodesem"] if x != "none"])
+    first_cmp = dict(first, nodesem=[x for x in first["nodesem"] if x != "none"])
+    bad = [f for f in ("semid", "cfgid", "nodesem") if third_cmp[f] != want[f] or third_cmp[f] != first_cmp[f]]
+    if bad:
+        return (bad, "pipeline_start identities of a configuration run on a shared orchestrator after another configuration's trace file could not be "
+                     "opened (%s) differ from its first run / from inspect: %s" % ("no pipeline_start for the failed job" if failed is None else "job failed", bad), cfg_b)
+    return None
+
+
 def first_obs_by_index(first_obs, bases, bi):
     nodes = bases[bi][1]
     for n, o in first_obs:
@@ -430,6 +519,14 @@ def replay(obj):
             print("  after", op, "->", "DIFFERENT " + ",".join(bad) if bad else "same as pristine")
             rc = rc or bool(bad)
         return int(rc)
+    if r.get("kind") == "shared-orchestrator":
+        import tempfile as _tf
+        d = shared_orchestrator_problem(_tf.mkdtemp(prefix="c04r_"))
+        print("now:", d[:2] if d else "identities agree")
+        return 1 if d else 0
+    if r.get("kind") == "aliased":
+        print("the configuration with two equal copies is shown; the failing one references ONE container object twice (%s)" % r.get("container"))
+        return 1
     if r.get("kind") == "hashseed":
         print("identity sets by PYTHONHASHSEED:", json.dumps(r.get("by_seed"), indent=1)[:2000])
         return 1
